@@ -540,6 +540,19 @@ impl SlabRouter {
     ///
     /// Returns an error if snapshot save or WAL operations fail.
     pub fn checkpoint(&self, snapshot_path: &Path) -> Result<u64, SlabRouterError> {
+        // Hold the WAL lock for the whole checkpoint so that no write can be logged between
+        // the snapshot and the truncation (it would be in neither).
+        let mut wal_guard = self.wal.as_ref().map(|wal_mutex| wal_mutex.lock());
+
+        // Everything logged so far must be in the WAL file before the new snapshot replaces
+        // the old one: with batched/manual sync the file may hold only an older prefix of the
+        // log, and replaying that prefix on top of the newer snapshot after a crash would
+        // bring back overwritten values and deleted keys.
+        if let Some(wal) = wal_guard.as_mut() {
+            wal.fsync()
+                .map_err(|e| SlabRouterError::WalError(format!("Failed to sync WAL: {e}")))?;
+        }
+
         // Save snapshot first
         self.save_to_file(snapshot_path)
             .map_err(|e| SlabRouterError::WalError(format!("Failed to save snapshot: {e}")))?;
@@ -550,14 +563,14 @@ impl SlabRouter {
         let checkpoint_id = self.checkpoint_counter.fetch_add(1, Ordering::SeqCst);
 
         // Log checkpoint marker and truncate WAL
-        if let Some(wal_mutex) = &self.wal {
-            let mut wal = wal_mutex.lock();
-
+        if let Some(wal) = wal_guard.as_mut() {
             let entry = WalEntry::Checkpoint {
                 snapshot_id: checkpoint_id,
             };
             wal.append(&entry)
                 .map_err(|e| SlabRouterError::WalError(format!("Failed to log checkpoint: {e}")))?;
+            wal.fsync()
+                .map_err(|e| SlabRouterError::WalError(format!("Failed to sync WAL: {e}")))?;
 
             #[cfg(feature = "neumann_verif")]
             crate::verif_hooks::point("checkpoint:after_marker");
